@@ -103,6 +103,17 @@ class OptT(T):
         return (self.t,)
 
 
+class ArrT(T):
+    """Ghost total map (z3 array); never a Python value."""
+
+    def __init__(self, k, v):
+        self.k = k
+        self.v = v
+
+    def key(self):
+        return (self.k, self.v)
+
+
 class ObjT(T):
     def __init__(self, cls):
         self.cls = cls
@@ -146,6 +157,8 @@ def _name(t):
         return 'S_' + _name(t.k) + '_'
     if isinstance(t, OptT):
         return 'O_' + _name(t.t) + '_'
+    if isinstance(t, ArrT):
+        return 'A_' + _name(t.k) + '_' + _name(t.v) + '_'
     raise TypeError('no sort name for %r' % (t,))
 
 
@@ -177,6 +190,8 @@ def sort_of(t):
         s = d.create()
     elif isinstance(t, SetT):
         s = z3.ArraySort(sort_of(t.k), z3.BoolSort())
+    elif isinstance(t, ArrT):
+        s = z3.ArraySort(sort_of(t.k), sort_of(t.v))
     elif isinstance(t, OptT):
         d = z3.Datatype(_name(t))
         d.declare('none')
